@@ -1975,9 +1975,61 @@ static void hashPrimes()
    }
 }
 
+// ---------------------------------------------------------------------------------------------------------
+// LPColBase / LPRowBase as values: assignment (also chained and to itself) must copy objective, bounds / sides and vector and
+// return the target.  Runs in a child under an alarm: an assignment operator without a return statement is undefined behaviour
+// (seen as a wild jump at -O1).
+// ---------------------------------------------------------------------------------------------------------
+static void lpAssign()
+{
+   fflush(stdout);
+   pid_t pid = fork();
+
+   if(pid == 0)
+   {
+      alarm(20);
+      bool ok = true;
+
+      for(int rep = 0; rep < 50 && ok; rep++)
+      {
+         DSVectorBase<double> v(2);
+         v.add(0, 1.0 + rep);
+         v.add(3, 2.0);
+         v.add(7, -0.5);
+         LPColBase<double> a, b, c;
+         a = LPColBase<double>(1.5, v, 4.0 + rep, -1.0);
+         LPColBase<double>& ra = (b = a);
+         c = b = a;
+         b = b;
+         ok = ok && &ra == &b && a.obj() == 1.5 && b.obj() == 1.5 && c.obj() == 1.5 && b.upper() == 4.0 + rep && c.lower() == -1.0
+              && b.colVector().size() == 3 && c.colVector().size() == 3 && c.colVector().index(1) == 3 && c.colVector().value(0) == 1.0 + rep
+              && b.colVector().value(2) == -0.5;
+         LPRowBase<double> r, q, t;
+         r = LPRowBase<double>(-2.0, v, 5.0 + rep);
+         LPRowBase<double>& rq = (q = r);
+         t = q = r;
+         q = q;
+         ok = ok && &rq == &q && q.lhs() == -2.0 && t.rhs() == 5.0 + rep && q.rowVector().size() == 3 && t.rowVector().size() == 3
+              && t.rowVector().index(2) == 7 && t.rowVector().value(1) == 2.0;
+      }
+
+      printf("LPASSIGN %s\n", ok ? "ok" : "wrong");
+      fflush(stdout);
+      _exit(0);
+   }
+
+   int st = 0;
+   waitpid(pid, &st, 0);
+
+   if(WIFSIGNALED(st))
+      printf("LPASSIGN %s\n", WTERMSIG(st) == SIGALRM ? "hang" : "crash");
+}
+
 int main(int argc, char** argv)
 {
-   if(argc >= 2 && !strcmp(argv[1], "hashprimes"))
+   if(argc >= 2 && !strcmp(argv[1], "lpassign"))
+      lpAssign();
+   else if(argc >= 2 && !strcmp(argv[1], "hashprimes"))
       hashPrimes();
    else if(argc >= 3 && !strcmp(argv[1], "run"))
       runCases(argv[2]);
